@@ -126,14 +126,24 @@ func (b *builderOptions) Build() (*Biscuit, error) {
 	if v := b.rootKeyID; v != nil {
 		opts = append(opts, WithRootKeyID(*v))
 	}
+	// the token must not share storage with the builder, which can still be added to
+	facts := make(datalog.FactSet, len(*b.facts))
+	copy(facts, *b.facts)
+
+	rules := make([]datalog.Rule, len(b.rules))
+	copy(rules, b.rules)
+
+	checks := make([]datalog.Check, len(b.checks))
+	copy(checks, b.checks)
+
 	return newBiscuit(
 		b.rootKey,
 		b.symbols,
 		&Block{
 			symbols: b.symbols.SplitOff(b.symbolsStart),
-			facts:   b.facts,
-			rules:   b.rules,
-			checks:  b.checks,
+			facts:   &facts,
+			rules:   rules,
+			checks:  checks,
 			context: b.context,
 			version: MaxSchemaVersion,
 		},
